@@ -25,7 +25,8 @@ CHECKS = {
      'configs': {'quick': [{'NST': 2, 'NSY': 2}], 'thorough': [{'NST': 2, 'NSY': 2}, {'NST': 2, 'NSY': 3, '_time': 2500}]},
      'selftest_config': {'NST': 2, 'NSY': 2}, 'selftests': ['VS_SELFTEST_1']},
     {'name': 'loaddump_fa', 'src': 'harness/C13/roundtrip.cc', 'tus': ['timbuk_parser-nobison', 'timbuk_serializer', 'explicit_finite_aut', 'explicit_finite_aut_core', 'util', 'convert', 'symbolic'],
-     'configs': {'quick': [{'NST': 2, 'NSY': 2, 'LOADDUMP': 1, 'LD_ENC': 1}]}, 'selftest_config': {'NST': 2, 'NSY': 2, 'LOADDUMP': 1, 'LD_ENC': 1}, 'selftests': ['VS_SELFTEST_1']},
+     'configs': {'quick': [{'NST': 2, 'NSY': 2, 'LOADDUMP': 1, 'LD_ENC': 1, 'DECL_FIXED': None, 'LD_AGAIN': 0}], 'thorough': [{'NST': 2, 'NSY': 2, 'LOADDUMP': 1, 'LD_ENC': 1, 'DECL_FIXED': None, 'LD_AGAIN': 0}, {'NST': 2, 'NSY': 2, 'LOADDUMP': 1, 'LD_ENC': 1, 'DECL_FIXED': None, 'LD_AGAIN': 1, '_time': 2500}]},
+     'selftest_config': {'NST': 2, 'NSY': 1, 'LOADDUMP': 1, 'LD_ENC': 1, 'DECL_FIXED': None, 'LD_AGAIN': 0}, 'selftests': ['VS_SELFTEST_1']},
     # (load/dump of the BDD encodings in explicit symbol mode at rule level: no verdict within 1000 s at 8 free bits; their
     #  load/dump is compared by language in C08 and, for the symbolic mode, by meaning in symdump above)
     {'name': 'loaddump', 'src': 'harness/C13/roundtrip.cc', 'tus': ['timbuk_parser-nobison', 'timbuk_serializer'] + TREE_CORE + ['util', 'convert', 'symbolic'],
